@@ -1783,6 +1783,7 @@ func (h *hist) opRename(hn *hint) {
 	var want exp
 	scen := ""
 	do := false
+	samePathMissing := false
 	dotEnd := func(p string) bool {
 		b := p[strings.LastIndex(p, "/")+1:]
 		return b == "." || b == ".." || b == ""
@@ -1791,9 +1792,12 @@ func (h *hist) opRename(hn *hint) {
 		want, scen = e, "src-"+sscen
 	} else if src.res.node == nil {
 		want, scen = wantErr(eNOENT), "src-missing"
-		if r.Chance(1, 4) { // old and new name the same missing entry
+		if r.Chance(1, 25) { // old and new name the same missing entry
 			dst = src
+		}
+		if dst.start == src.start && dst.res.parent == src.res.parent && dst.res.name == src.res.name && dst.res.err == 0 && !dst.res.escape {
 			scen = "src-missing:dst-same-path"
+			samePathMissing = true
 		}
 	} else if e, bad := dst.lookupErr(); bad {
 		want, scen = e, "src-"+sscen+":dst-"+dscen
@@ -1838,6 +1842,15 @@ func (h *hist) opRename(hn *hint) {
 	p1, l1 := h.g.putPath(offPathA, src.path)
 	p2, l2 := h.g.putPath(offPathB, dst.path)
 	got := h.g.call("path_rename", fdArg(src.dirfd), p1, l1, fdArg(dst.dirfd), p2, l2)
+	if samePathMissing && got == 0 {
+		// renaming a missing name onto itself cannot have changed anything: report and go on
+		h.res.Calls["path_rename"]++
+		h.res.Defined++
+		h.logf("path_rename(%d,%q,%d,%q) [%s] -> OK (model: ENOENT)", src.dirfd, src.path, dst.dirfd, dst.path, scen)
+		h.violateSoft("path_rename:src-missing:dst-same-path:errno=OK-want-ENOENT",
+			fmt.Sprintf("path_rename(%d,%q,%d,%q) returned OK although the source does not exist", src.dirfd, src.path, dst.dirfd, dst.path))
+		return
+	}
 	suc, ok := h.check("path_rename", scen, fmt.Sprintf("(%d,%q,%d,%q)", src.dirfd, src.path, dst.dirfd, dst.path), got, want)
 	if !ok || !suc || !do {
 		return
